@@ -30,7 +30,7 @@ fn parse_batch(s: &str) -> BatchRequestConfig {
 	}
 }
 
-const METHODS: [&str; 11] = ["echo", "a_echo", "blk_echo", "sum", "a_sum", "fail", "str", "esc", "blk_boom", "sub", "unsub"];
+const METHODS: [&str; 12] = ["echo", "a_echo", "blk_echo", "sum", "a_sum", "fail", "str", "esc", "blk_boom", "sub", "unsub", "rpc.e"];
 
 /// plain-JSON reading of a message for the oracle (independent of jsonrpsee's own types)
 #[derive(Debug)]
@@ -757,7 +757,7 @@ fn gen_params(rng: &mut Rng) -> Option<String> {
 
 fn gen_method(rng: &mut Rng) -> String {
 	match rng.below(12) {
-		0..=7 => (*rng.pick(&["echo", "echo", "a_echo", "blk_echo", "sum", "a_sum", "fail", "str", "esc"])).to_string(),
+		0..=7 => (*rng.pick(&["echo", "echo", "a_echo", "blk_echo", "sum", "a_sum", "fail", "str", "esc", "rpc.e"])).to_string(),
 		8 => "blk_boom".into(),
 		9 => (*rng.pick(&["nope", "", "Echo", "echo ", "rpc.echo"])).to_string(),
 		_ => gen_str_content(rng),
@@ -913,7 +913,7 @@ fn gen_batch(rng: &mut Rng) -> String {
 fn batch_cfg(rng: &mut Rng) -> String {
 	match rng.below(8) {
 		0 => "d".into(),
-		1 => format!("l:{}", rng.below(4)),
+		1 => format!("l:{}", rng.below(4)),   // includes the boundary Limit(0): every non-empty batch is too long
 		2 => "l:8".into(),
 		_ => "u".into(),
 	}
@@ -1071,6 +1071,21 @@ fn gen_c08(rng: &mut Rng, n: u64, lines: &mut Vec<String>) {
 		if i % 7 == 0 {
 			lines.push(format!("msg {}", hexs(&gen_batch_safe(rng))));
 		}
+		// batches in which ONE entry is too big on its own while the array with its -32008 replacement fits
+		// (positions first / middle / last), and batches whose entries each fit but not together
+		if i % 4 == 1 {
+			cn += 1;
+			let limit = *rng.pick(&[250u64, 300, 400, 1000]);
+			lines.push(format!("case {cn} srv 1000000 {limit} u"));
+			let small = |j: u64| echo_call(&format!("{}", 100 + j), "\"s\"");
+			let big = format!("{{\"jsonrpc\":\"2.0\",\"id\":9,\"method\":\"str\",\"params\":[{}]}}", limit);
+			for shape in [vec![small(0), big.clone()], vec![big.clone(), small(0)], vec![small(0), big.clone(), small(1)], vec![big.clone()], vec![big.clone(), big.clone()]] {
+				lines.push(format!("msg {}", hexs(&format!("[{}]", shape.join(",")))));
+			}
+			let half = format!("{{\"jsonrpc\":\"2.0\",\"id\":8,\"method\":\"str\",\"params\":[{}]}}", limit / 2);
+			lines.push(format!("msg {}", hexs(&format!("[{half},{half}]"))));
+			lines.push(format!("msg {}", hexs(&format!("[{},{half},{half}]", small(2)))));
+		}
 	}
 }
 
@@ -1107,6 +1122,23 @@ fn gen_c07(rng: &mut Rng, n: u64, lines: &mut Vec<String>) {
 			lines.push(format!("http POST {ct} none {} {}", hexs(&wsb[..k]), hex(format!("{}{req}", &wsb[k..]).as_bytes())));
 		}
 		lines.push(format!("http POST {ct} {} {}", mr + 1, hexs("{\"jsonrpc\":\"2.0\",\"id\":1,\"method\":\"echo\"}")));
+		// an oversize body whose within-limit PREFIX is a complete call (call, then whitespace padding beyond
+		// the limit): the frames up to the limit must not be processed on their own
+		{
+			let call = "{\"jsonrpc\":\"2.0\",\"id\":1,\"method\":\"echo\",\"params\":[7]}";
+			let pad = (mr as usize + 45).saturating_sub(call.len());
+			let body = format!("{call}{}", " ".repeat(pad));
+			if call.len() <= mr as usize {
+				let cuts = [call.len(), (mr as usize).min(body.len()), call.len() + 1];
+				for c in cuts {
+					let c = c.min(body.len());
+					lines.push(format!("http POST {ct} none {} {}", hexs(&body[..c]), hexs(&body[c..])));
+				}
+				lines.push(format!("http POST {ct} none {} {} {}", hexs(call), hexs(&" ".repeat(pad / 2)), hexs(&" ".repeat(pad - pad / 2))));
+				// the same message over WebSocket (one oversize message)
+				lines.push(format!("msg {}", hexs(&body)));
+			}
+		}
 		// a Content-Length that claims less than the body really holds (possible wherever the body is
 		// application-supplied: TowerService, http::call_with_service*): the real size decides
 		for total in [mr as i64 + 1, mr as i64 + 40, mr as i64 * 3] {
